@@ -23,7 +23,8 @@ RULE = ("exhaustive cross product: 8 undefined types (Undefined, ChainableUndefi
         "operations written as template expressions (sync and async environments). A cell is "
         "distinct by (type, origin, level, operation, operand kind); all cells are non-trivial "
         "(each executes one operation on a live undefined and is compared with the table). "
-        "thorough adds random variable names, operands and chain paths")
+        "a random extension varies variable names (incl. non-ASCII identifiers), operands and "
+        "ChainableUndefined access paths (30 rounds/shard quick, up to 4000 thorough)")
 TECHNIQUE = "reference-table monitor over the exhaustive type x origin x operation x operand table"
 LEVEL_TEXT = ("held on every cell of the finite table (exhaustive) and on the random extension "
               "of names/operands; outcomes observed: result values, exception types, messages, "
@@ -42,14 +43,16 @@ ASSUMPTIONS = [
 NSHARDS = {"quick": 16, "thorough": 16}
 BUDGET_S = {"quick": 25, "thorough": 420}
 FLOORS = {
-    "quick": {"evaluations": 20000, "distinct": 15000,
-              "counters": {"py_cells": 15000, "tmpl_cells": 3000, "async_cells": 40,
-                           "outcome_err": 12000, "outcome_val": 2000, "log_checks": 200,
-                           "msg_checks": 12000}},
-    "thorough": {"evaluations": 60000, "distinct": 15000,
-                 "counters": {"py_cells": 50000, "tmpl_cells": 8000, "async_cells": 40,
-                              "outcome_err": 40000, "outcome_val": 6000, "log_checks": 600,
-                              "msg_checks": 40000, "random_rounds": 16}},
+    # the table part is exhaustive and not time-boxed, so floors sit close to the table size
+    "quick": {"evaluations": 45000, "distinct": 40000,
+              "counters": {"py_cells": 30000, "tmpl_cells": 12000, "async_cells": 150,
+                           "outcome_err": 35000, "outcome_val": 8000, "log_checks": 150,
+                           "msg_checks": 35000, "random_rounds": 120, "weak_val": 4000}},
+    "thorough": {"evaluations": 150000, "distinct": 40000,
+                 "counters": {"py_cells": 100000, "tmpl_cells": 15000, "async_cells": 150,
+                              "outcome_err": 100000, "outcome_val": 25000, "log_checks": 1000,
+                              "msg_checks": 100000, "random_rounds": 1500, "chain_steps": 200,
+                              "weak_val": 12000}},
 }
 
 TYPE_SPECS = list(T.BASES) + [f"Logging({b})" for b in T.BASES]
@@ -247,7 +250,7 @@ def shallow_stack(fn, u):
         depth += 1
         f = f.f_back
     old = sys.getrecursionlimit()
-    sys.setrecursionlimit(depth + 50)
+    sys.setrecursionlimit(depth + 30)
     try:
         return fn(u)
     finally:
@@ -299,8 +302,13 @@ def _on_alarm(signum, frame):
 OP_TIMEOUT_S = 8.0
 
 
+_alarm_installed = [False]
+
+
 def attempt(fn, *a):
-    signal.signal(signal.SIGALRM, _on_alarm)
+    if not _alarm_installed[0]:
+        signal.signal(signal.SIGALRM, _on_alarm)
+        _alarm_installed[0] = True
     signal.setitimer(signal.ITIMER_REAL, OP_TIMEOUT_S, 0.25)
     try:
         return ("ok", fn(*a))
@@ -693,8 +701,7 @@ def run(ctx):
                     tmpl_cell(ctx, env, base, recs, cell)
     ctx.exhaustive = True
     ctx.extra["table_groups"] = gi if ctx.shard == 0 else 0
-    if ctx.tier == "thorough":
-        random_extension(ctx, cache)
+    random_extension(ctx, cache, 30 if ctx.tier == "quick" else 4000)
 
 
 # ------------------------------------------------------------------ random extension
@@ -736,10 +743,10 @@ def rand_operand(rng):
     return ("undef_diff", "$diff")
 
 
-def random_extension(ctx, cache):
+def random_extension(ctx, cache, rounds):
     rng = ctx.rng("ext")
     i = 0
-    while ctx.more(i, 4000, 40):
+    while ctx.more(i, rounds, 10):
         i += 1
         ctx.count("random_rounds")
         spec = rng.choice(TYPE_SPECS)
